@@ -7,7 +7,9 @@ package api
 //@ spec func blocked(r) = r != nil && r.status == base.ResultStatusBlocked
 
 // sync.Pool ownership: objects in the options pool are as left by New / Reset and held by nobody else
-//@ poolinv "*api.EntryOptions": it.slotChain == nil && len(it.args) == 0 && it.batchCount == 1
+// (every default an Entry call without the corresponding option relies on: outbound traffic, common resource type,
+// batch 1, no flag, the global chain, no arguments, no attachments)
+//@ poolinv "*api.EntryOptions": it.slotChain == nil && len(it.args) == 0 && it.batchCount == 1 && it.entryType == base.Outbound && it.resourceType == base.ResTypeCommon && it.flag == 0 && it.attachments == nil
 
 //@ func entry(resource, options) (e, b)
 //@   props C01, C06, C16
